@@ -194,7 +194,7 @@ fn run_engine(d: u64, p: u64, kind: &str, bm: BatchMode, steps: &[Step], timed: 
     }
     let closed_at = Instant::now();
     drop(tx);
-    let hang = done_rx.recv_timeout(Duration::from_secs(15)).is_err();
+    let hang = done_rx.recv_timeout(Duration::from_secs(15 * nvh::load_factor() as u64)).is_err();
     if !hang {
         let _ = collector.join();
     }
